@@ -122,6 +122,7 @@ def run(
             'java',
             f'-Xmx{heap}',
             '-XX:+UseParallelGC',
+            '-Xss64m',          # deep recursive operators (jets of nested formulas) need more than the default stack
             f'-DTLA-Library={SPECS}{os.pathsep}{work}',
         ]
         if dfs:
